@@ -110,7 +110,13 @@ pub fn run(ctx: &Ctx) -> i32 {
         rep = par_shards(ctx, shards, |_si, rng, rep| {
             for k in 0..(n / shards as u64).max(1) {
                 let spec = random_spec(rng, true);
-                let case = gen_case(rng, spec, 3);
+                // one case in eight runs validated EOF containers under OSAKA (EXT*CALL, EOFCREATE,
+                // RETURNCONTRACT frames, factories whose nonce is exhausted)
+                let case = if rng.chance(1, 8) { super::c26_eof::gen_eof_case(rng) } else { gen_case(rng, spec, 3) };
+                let spec = case.spec;
+                if spec == SpecId::OSAKA {
+                    rep.count("osaka_cases");
+                }
                 rep.eval();
                 rep.cell("cases_per_spec", spec_name(spec));
                 if check(&case, rep) {
@@ -137,7 +143,7 @@ pub fn run(ctx: &Ctx) -> i32 {
     }
     finish(ctx, rep, Finish {
         level: "exploration",
-        rule: "every transaction of every generated case (all SpecIds incl. OSAKA legacy code) runs plain and with NoOpInspector, GasInspector, TracerEip3155 (sink writer; with and without memory capture) registered through inspector_handle_register, before or after another no-op register; ExecutionResult and the complete returned EvmState (info, status flags, every slot with original and present value and warmth) must be equal. Generated cases as in W (see C29). Non-trivial = at least one transaction executed; distinct by case hash.".into(),
+        rule: "every transaction of every generated case (all SpecIds; one case in eight is a set of validated EOF containers under OSAKA) runs plain and with NoOpInspector, GasInspector, TracerEip3155 (sink writer; with and without memory capture) registered through inspector_handle_register, before or after another no-op register; ExecutionResult and the complete returned EvmState (info, status flags, every slot with original and present value and warmth) must be equal. Generated cases as in W (see C29). Non-trivial = at least one transaction executed; distinct by case hash.".into(),
         assumptions: vec!["CustomPrintTracer is not exercised (it only prints)".into()],
     })
 }
